@@ -282,6 +282,30 @@ func (x *Exec) evalArgs(s *State, e *ast.CallExpr, sig *types.Signature) []Val {
 // dispatch: contract, inline, assumed, or havoc.
 func (x *Exec) dispatch(s *State, e *ast.CallExpr, c callee, recv *Val, args []Val) Val {
 	pos := e.Pos()
+	// call-site rules of the function under verification
+	if tc := x.topContract(); tc != nil && len(tc.CallSites) > 0 {
+		cname := ""
+		if c.fn != nil {
+			cname = c.fn.Name()
+		} else if sel, ok := unparen(e.Fun).(*ast.SelectorExpr); ok {
+			cname = sel.Sel.Name
+		} else if id, ok := unparen(e.Fun).(*ast.Ident); ok {
+			cname = id.Name
+		}
+		for _, r := range tc.CallSites {
+			if r.callee == cname || (c.fn != nil && r.callee == objKey(c.fn)) {
+				top := x.eng.curTop
+				tx := &Exec{eng: x.eng, fn: top}
+				env := tx.specEnvAt(s, top.body.Lbrace+1)
+				for k, v := range top.specVars {
+					if _, shadow := env.vars[k]; !shadow {
+						_ = v
+					}
+				}
+				x.oblige(s, "callsite", pos, env.evalBool(r.req), "call of "+cname+" requires "+r.req.Src)
+			}
+		}
+	}
 	if c.fv != nil && c.fv.Lit != nil {
 		return x.inlineLit(s, c.fv, args, pos)
 	}
